@@ -1,20 +1,328 @@
-//! C14 — not implemented yet (stub).
+//! C14 — array behaviour is independent of the internal element storage.
+//!
+//! A case is a JS script (see `genp::arr`): one history of steps over two arrays, executed once
+//! per *variant* (storage route / Proxy / array-like). Oracles:
+//!   * D-ext: V8 runs the same script; the whole trace must be equal (every variant).
+//!   * D-cfg: within boa, all real-array routes (which reach the same logical starting array
+//!     through different element-storage histories) must print identical segments.
+//! The `__kind` native (boa run only) records the actual element storage of `a`/`b` after each
+//! step in a side channel; it feeds the non-trivial rule and the labels, never the trace.
 
 use crate::driver::{CaseOut, Env, Prop, Stream, Tier};
+use crate::genp::arr::{Excl, MODES, PRELUDE, generate};
+use crate::run::{Completion, RunCfg, run_with};
+use boa_engine::{Context, JsResult, JsValue, NativeFunction, js_string, object::IndexProperties};
+use std::cell::RefCell;
 
 pub struct C14;
+
+#[derive(Clone, Debug, PartialEq)]
+enum Rec {
+    Marker(String),
+    Kind(i32, char),
+}
+
+thread_local! {
+    static KINDS: RefCell<Vec<Rec>> = const { RefCell::new(Vec::new()) };
+}
+
+fn kind_native(_this: &JsValue, args: &[JsValue], _ctx: &mut Context) -> JsResult<JsValue> {
+    let first = args.first().cloned().unwrap_or_default();
+    if let Some(s) = first.as_string() {
+        KINDS.with(|k| k.borrow_mut().push(Rec::Marker(s.to_std_string_escaped())));
+        return Ok(JsValue::undefined());
+    }
+    let id = first.as_number().map_or(0, |n| n as i32);
+    let kind = match args.get(1).and_then(JsValue::as_object) {
+        Some(o) if o.is_array() => match o.borrow().properties().index_properties() {
+            IndexProperties::DenseI32(_) => 'I',
+            IndexProperties::DenseF64(_) => 'F',
+            IndexProperties::DenseElement(_) => 'E',
+            IndexProperties::SparseElement(_) => 'S',
+            IndexProperties::SparseProperty(_) => 'P',
+        },
+        Some(_) => 'o',
+        None => '-',
+    };
+    KINDS.with(|k| k.borrow_mut().push(Rec::Kind(id, kind)));
+    Ok(JsValue::undefined())
+}
+
+/// (variant name, first line index, end line index) of each `== name` segment
+fn segments(prints: &[String]) -> Vec<(String, usize, usize)> {
+    let mut out: Vec<(String, usize, usize)> = vec![];
+    for (i, l) in prints.iter().enumerate() {
+        if let Some(n) = l.strip_prefix("== ") {
+            if let Some(last) = out.last_mut() {
+                last.2 = i;
+            }
+            out.push((n.to_string(), i + 1, prints.len()));
+        }
+    }
+    out
+}
+
+/// op tag of the step the line `k` belongs to, and what part of the step's output it is
+fn locate(prints: &[String], k: usize) -> (String, String) {
+    let at = match prints.get(k) {
+        None => "missing".to_string(),
+        Some(l) if l.starts_with("> ") => "result".into(),
+        Some(l) if l.starts_with("== ") => "marker".into(),
+        Some(l) => l.trim_start().split(':').next().unwrap_or("").to_string(),
+    };
+    let mut j = k.min(prints.len().saturating_sub(1));
+    loop {
+        if let Some(l) = prints.get(j) {
+            if let Some(rest) = l.strip_prefix("> ") {
+                return (rest.split(' ').next().unwrap_or("").to_string(), at);
+            }
+            if l.starts_with("== ") && j != k {
+                return ("start".into(), at);
+            }
+        }
+        if j == 0 {
+            return ("start".into(), at);
+        }
+        j -= 1;
+    }
+}
+
+struct KindInfo {
+    transitions: usize,
+    methods_after: usize,
+    kinds_seen: Vec<char>,
+    start_kinds: Vec<(String, char)>,
+}
+
+/// Storage transitions observed in the first real-array segment, and the number of method steps
+/// after the last one.
+fn kind_info(recs: &[Rec], prints: &[String]) -> KindInfo {
+    let mut info = KindInfo { transitions: 0, methods_after: 0, kinds_seen: vec![], start_kinds: vec![] };
+    // split records per marker
+    let mut segs: Vec<(String, Vec<(i32, char)>)> = vec![];
+    for r in recs {
+        match r {
+            Rec::Marker(m) => segs.push((m.clone(), vec![])),
+            Rec::Kind(id, k) => {
+                if let Some(s) = segs.last_mut() {
+                    s.1.push((*id, *k));
+                }
+            }
+        }
+    }
+    for (name, ks) in &segs {
+        if !MODES.contains(&name.as_str()) {
+            if let Some((_, k)) = ks.first() {
+                info.start_kinds.push((name.clone(), *k));
+            }
+        }
+    }
+    let Some((name, ks)) = segs.iter().find(|(n, _)| !MODES.contains(&n.as_str())) else { return info };
+    // two records (a, b) per dump; dump 0 is the initial one, dump i (i >= 1) follows step i
+    let mut last: std::collections::HashMap<i32, char> = Default::default();
+    let mut last_transition_step = 0usize;
+    for (d, pair) in ks.chunks(2).enumerate() {
+        for (id, k) in pair {
+            if !info.kinds_seen.contains(k) {
+                info.kinds_seen.push(*k);
+            }
+            if *id == 0 || !"IFESP".contains(*k) {
+                continue;
+            }
+            if let Some(prev) = last.get(id) {
+                if prev != k {
+                    info.transitions += 1;
+                    last_transition_step = d;
+                }
+            }
+            last.insert(*id, *k);
+        }
+    }
+    // step tags of that segment: the `> tag` lines in order (episode sub-steps count as steps too,
+    // each is followed by a dump, so dump index == number of `> ` lines so far)
+    if let Some((_, lo, hi)) = segments(prints).into_iter().find(|(n, _, _)| n == name) {
+        let tags: Vec<&str> = prints[lo..hi].iter().filter_map(|l| l.strip_prefix("> ")).map(|r| r.split(' ').next().unwrap_or("")).collect();
+        info.methods_after = tags.iter().skip(last_transition_step).filter(|t| t.starts_with("m.")).count();
+    }
+    info
+}
+
+fn kind_label(k: char) -> Option<&'static str> {
+    Some(match k {
+        'I' => "storage-DenseI32",
+        'F' => "storage-DenseF64",
+        'E' => "storage-DenseElement",
+        'S' => "storage-SparseElement",
+        'P' => "storage-SparseProperty",
+        _ => return None,
+    })
+}
+
+impl C14 {
+    fn check_src(&self, env: &mut Env, src: &str, mut labels: Vec<&'static str>) -> CaseOut {
+        let rendered = src.to_string();
+        KINDS.with(|k| k.borrow_mut().clear());
+        let boa = run_with(src, &RunCfg::default(), |ctx| {
+            ctx.register_global_builtin_callable(js_string!("__kind"), 2, NativeFunction::from_fn_ptr(kind_native)).expect("register __kind");
+        });
+        let recs = KINDS.with(|k| std::mem::take(&mut *k.borrow_mut()));
+        if boa.completion.is_limit() {
+            return CaseOut::skip(rendered, "boa-limit").with_labels(labels);
+        }
+        let segs = segments(&boa.prints);
+        if let Completion::Panic(p) | Completion::EnginePanic(p) = &boa.completion {
+            let (op, _) = locate(&boa.prints, boa.prints.len().saturating_sub(1));
+            let route = segs.last().map_or("?", |s| s.0.as_str());
+            return CaseOut::fail(rendered, format!("panic {p}; after op={op}; route={route}"), format!("boa panicked: {p}\nlast lines:\n{}", boa.prints.iter().rev().take(6).rev().cloned().collect::<Vec<_>>().join("\n"))).with_labels(labels);
+        }
+        // V8
+        let node = match env.node() {
+            Ok(n) => n,
+            Err(e) => return CaseOut::skip(rendered, format!("oracle-unavailable: {e}")),
+        };
+        // own request (not oracle::node_script): a longer V8 timeout, the machine may be loaded
+        let (np, nc) = match node.call(serde_json::json!({"kind": "script", "src": src, "timeout": 12000})) {
+            Ok(v) => {
+                let prints: Vec<String> = v["prints"].as_array().map(|a| a.iter().map(|x| x.as_str().unwrap_or("").to_string()).collect()).unwrap_or_default();
+                (prints, v["completion"].as_str().unwrap_or("").to_string())
+            }
+            Err(e) => return CaseOut::skip(rendered, format!("oracle-error: {e}")),
+        };
+        if nc == "limit:timeout" {
+            return CaseOut::skip(rendered, "v8-timeout").with_labels(labels);
+        }
+        // the V8 side buffers its lines and prints them in chunks (see the prelude)
+        let np: Vec<String> = np.iter().flat_map(|p| p.split("\\u000a").filter(|l| !l.is_empty()).map(str::to_string).collect::<Vec<_>>()).collect();
+        // D-cfg: all real-array routes print the same segment (boa vs boa)
+        let arr_segs: Vec<&(String, usize, usize)> = segs.iter().filter(|s| !MODES.contains(&s.0.as_str())).collect();
+        if let Some(reference) = arr_segs.first() {
+            let r = &boa.prints[reference.1..reference.2];
+            for s in arr_segs.iter().skip(1) {
+                let o = &boa.prints[s.1..s.2];
+                if r != o {
+                    let k = r.iter().zip(o.iter()).position(|(x, y)| x != y).unwrap_or(r.len().min(o.len()));
+                    let (op, at) = locate(&boa.prints, s.1 + k);
+                    let v8_ref = np.get(reference.1 + k).cloned().unwrap_or_default();
+                    let v8_oth = np.get(s.1 + k).cloned().unwrap_or_default();
+                    let detail = format!(
+                        "same logical array, different storage route, different behaviour at line {k} of the segment (step {op}, {at})\nboa route {}: {:?}\nboa route {}: {:?}\nv8  route {}: {:?}\nv8  route {}: {:?}\nprevious lines (route {}):\n{}",
+                        reference.0,
+                        r.get(k),
+                        s.0,
+                        o.get(k),
+                        reference.0,
+                        v8_ref,
+                        s.0,
+                        v8_oth,
+                        s.0,
+                        o[k.saturating_sub(4)..k.min(o.len())].join("\n")
+                    );
+                    return CaseOut::fail(rendered, format!("storage-dependent op={op}; at={at} route={}", s.0), detail).with_labels(labels);
+                }
+            }
+        }
+        // D-ext: whole trace vs V8
+        if boa.prints != np {
+            let k = boa.prints.iter().zip(np.iter()).position(|(x, y)| x != y).unwrap_or(boa.prints.len().min(np.len()));
+            let longer = if boa.prints.len() >= np.len() { &boa.prints } else { &np };
+            let (op, at) = locate(longer, k);
+            let route = segs.iter().rev().find(|s| s.1 <= k + 1).map_or("?", |s| s.0.as_str());
+            let lo = k.saturating_sub(4);
+            let detail = format!(
+                "trace differs from V8 at line {k} (route {route}, step {op}, {at})\nboa: {:?}\nv8:  {:?}\nprevious lines:\n{}",
+                boa.prints.get(k),
+                np.get(k),
+                boa.prints[lo..k.min(boa.prints.len())].join("\n")
+            );
+            return CaseOut::fail(rendered, format!("v8-differs op={op}; at={at} route={route}"), detail).with_labels(labels);
+        }
+        let bc = boa.completion.render();
+        if bc != nc {
+            return CaseOut::fail(rendered, format!("completion boa={bc} v8={nc}"), format!("boa: {bc}\nv8: {nc}")).with_labels(labels);
+        }
+        // non-trivial rule + labels from the observed storage
+        let info = kind_info(&recs, &boa.prints);
+        for k in &info.kinds_seen {
+            if let Some(l) = kind_label(*k) {
+                labels.push(l);
+            }
+        }
+        let distinct_start: std::collections::BTreeSet<char> = info.start_kinds.iter().map(|x| x.1).collect();
+        if distinct_start.len() >= 2 {
+            labels.push("routes-start-in-different-storage");
+        }
+        if distinct_start.len() >= 3 {
+            labels.push("routes-start-in-3+-storages");
+        }
+        if info.transitions >= 2 {
+            labels.push("transitions>=2");
+        }
+        if info.transitions >= 4 {
+            labels.push("transitions>=4");
+        }
+        for m in MODES {
+            if segs.iter().any(|s| s.0 == *m) {
+                labels.push(match *m {
+                    "proxy" => "mode-proxy",
+                    "alike" => "mode-arraylike",
+                    _ => "mode-arraylike-with-array-proto",
+                });
+            }
+        }
+        let nontrivial = info.transitions >= 2 && info.methods_after >= 3 && arr_segs.len() >= 2;
+        if nontrivial {
+            labels.push("nontrivial");
+        }
+        CaseOut::pass(rendered, nontrivial).with_labels(labels)
+    }
+}
 
 impl Prop for C14 {
     fn id(&self) -> &'static str {
         "C14"
     }
-    fn streams(&self, _tier: Tier) -> Vec<Stream> {
-        vec![]
+    fn streams(&self, tier: Tier) -> Vec<Stream> {
+        let m = if tier == Tier::Quick { 1 } else { 60 };
+        // development aid: BV_C14_CASES overrides the number of cases
+        let n = std::env::var("BV_C14_CASES").ok().and_then(|s| s.parse().ok()).unwrap_or(3000 * m);
+        vec![Stream::new("hist", n, 900).batch(40)]
     }
     fn rule(&self) -> String {
-        "stub".into()
+        "histories of 5-60 steps over two arrays generated from the byte tape by genp::arr (push/pop/shift/unshift/splice/length=/index stores of int,double,-0,NaN,string,object at dense/just-past-end/far/non-index keys, delete, literal holes, defineProperty on elements and length, freeze/seal/preventExtensions, all Array.prototype methods incl. mutating callbacks, iteration protocols, key enumeration, prototype-chain elements, 2^32-1 length episodes); after every step a canonical dump (length, own keys in order, values with -0/NaN markers, descriptor flags, inherited-under-hole markers, extensibility). The history is executed on 5 real arrays that reach the same logical starting array by different storage routes (of: literal, int->double->int, hole filled, defineProperty, Array(n)+stores, string replaced, attribute toggled, reverse stores, pop/length cut, push/Array.of, Array.from) and on 1-2 of {Proxy(arr), plain array-like, array-like with Array.prototype}. Oracles: V8 runs the same script (whole trace equal); within boa all real-array routes must print identical segments. Non-trivial = in the first real-array route the engine's actual element storage (observed through a side-channel native after every step) changed kind >= 2 times (DenseI32/DenseF64/DenseElement/SparseElement/SparseProperty, per object) and >= 3 Array.prototype method steps follow the last change, and >= 2 real-array routes ran; distinct = distinct script text".into()
     }
-    fn run_case(&self, _env: &mut Env, _stream: &str, _index: u64, _tape: &[u8]) -> CaseOut {
-        CaseOut::skip(String::new(), "stub")
+    fn assumptions(&self) -> Vec<String> {
+        vec!["V8 (node 20) implements the specification's array algorithms for the generated operations; sort only with consistent comparators; no implementation-defined text is printed (error names only)".into()]
+    }
+    fn run_case(&self, env: &mut Env, _stream: &str, _index: u64, tape: &[u8]) -> CaseOut {
+        let case = generate(tape, Excl::default());
+        if let Ok(dir) = std::env::var("BV_C14_DUMP") {
+            // development aid: keep the generated scripts
+            if std::env::var_os("BV_C14_DUMP_ALL").is_some() {
+                let _ = std::fs::write(format!("{dir}/case{_index}.js"), &case.src);
+            }
+        }
+        let t0 = std::time::Instant::now();
+        let marker = std::env::var("BV_C14_DUMP").ok().map(|dir| format!("{dir}/running-{}-{_index}.js", std::process::id()));
+        if let Some(m) = &marker {
+            // a case killed by the watchdog leaves its marker behind
+            let _ = std::fs::write(m, &case.src);
+        }
+        let out = self.check_src(env, &case.src, case.labels);
+        if let Some(m) = &marker {
+            let _ = std::fs::remove_file(m);
+        }
+        if std::env::var_os("BV_C14_TIMING").is_some() && (t0.elapsed().as_millis() > 3000 || matches!(out.verdict, crate::driver::Verdict::Skip(_))) {
+            eprintln!("slow case {_index}: {} ms {:?}", t0.elapsed().as_millis(), matches!(out.verdict, crate::driver::Verdict::Skip(_)));
+        }
+        out
+    }
+    fn run_rendered(&self, env: &mut Env, _stream: &str, rendered: &str) -> Option<CaseOut> {
+        if rendered.is_empty() {
+            return Some(CaseOut::skip(String::new(), "empty"));
+        }
+        Some(self.check_src(env, rendered, vec![]))
+    }
+    fn rendered_prefix_lines(&self, rendered: &str) -> usize {
+        if rendered.starts_with(PRELUDE) { PRELUDE.lines().count() } else { 0 }
     }
 }
